@@ -700,10 +700,6 @@ def coq_expected(out):
 
 
 PREAMBLE = r"""
-Definition mkS (k : kind) (vid : N) (pkgstep stack : N) (name recipe : str) (iso valid : bool)
-               (args tools : list N) (sbx : option N) : step :=
-  mkStep k vid (N.to_nat pkgstep) stack name recipe iso valid (map N.to_nat args) (map N.to_nat tools)
-         (match sbx with Some x => Some (N.to_nat x) | None => None end).
 Definition input := (str * bool * list step * list N * list N)%type.
 Definition run_in (i : input) : outcome * bool :=
   let '(prefix, short, g, roots, sroots) := i in
@@ -850,6 +846,16 @@ def run(ctx):
         "the faithfulness of the embedded job specification (PartialIR round trip: variant ids, recomputed variant/build ids, scripts, environments, workspace paths, tools, sandbox) is a differential test on the implementation only; it is not modelled and no theorem covers it",
         "XML rendering of jobs, the Jenkins server protocol and the execution of jobs on a build node (bob _jexec) are out of scope",
     ]
+    ctx.note("PROVED (Coq, unbounded, for every step graph with [wf g]): the childs sets are closed under job level "
+             "reachability after spanning and after every merge; the abstract job graph (recorded parents AND the real "
+             "direct package dependencies of the reference instances) is acyclic after all merges; every needed variant "
+             "is in exactly one abstract job; a job's childs/parents record the jobs of all its dependencies; the display "
+             "name is a total function of the abstract job. REFUTED by witness (vm_compute): names_unique (F4), "
+             "job_graph_acyclic without the hypothesis that the variant graph over all instances is acyclic (F13).")
+    ctx.note("ONLY EXERCISED (correspondence model vs implementation + oracle on the implementation): prefix naming and "
+             "numbering (apart from name = function of job), internal names, _genJenkinsJobs/JenkinsJob.addStep "
+             "(job membership, upstream sets, roots), genJenkinsBuildOrder, shortdescription, isolate; the PartialIR job "
+             "specification round trip is implementation-only (not modelled).")
     if ctx.replay:
         return replay(ctx)
     cases, meta = [], []
@@ -903,9 +909,10 @@ def run(ctx):
     for c in load_corpus():
         g, raw = case_of(c)
         process(g, raw, tag="corpus", expect=c.get("expect"))
-    n = ctx.n(450, 9000)
+    n = ctx.n(350, 3000)
     for i in range(n):
-        process(gen_project(rng))
+        big = ctx.tier == "thorough" and i % 4 == 0
+        process(gen_project(rng, size=rng.choice([9, 11, 12, 14]) if big else None))
     bad, log = coq.run_cases(ctx, ["BobV.C20.Model"], "run_in", "expected_eqb", cases, preamble=PREAMBLE,
                              tag="jobs", shard=60 if ctx.tier == "quick" else 150)
     if bad is None:
